@@ -493,6 +493,7 @@ def run(run):
     precedence(run, fx)
     sortedlists(run, fx)
     attrsign(run, fx)
+    setglyphfx(run, fx)
     firstpassing(run, fx)
     pureconstraint(run, vm)
     passorder(run, fx)
@@ -579,3 +580,39 @@ def passexec(run, fx, maxp=4, collect=None):
                 if log.count('assoc') != 1 or [x for x in log if x == 'assoc' or isinstance(x, int)] != list(range(p)) + ['assoc'] + list(range(p, n)):
                     return cases, '%s: characters are associated at %s, expected once between the substitution and positioning passes' % (desc, log), None
     return cases, None, None
+
+
+def setglyphfx(run, fx):
+    """a substitution makes the slot take the metrics of the glyph it now shows: every path through Slot::setGlyph stores the glyph id,
+    the real glyph id, the advance and drops the cached bidi class (no early exit ahead of them: a rule that substitutes a glyph by itself
+    still resets an advance set by an earlier rule, as it does for every other member of the rule's class)"""
+    from .util import field_writes
+    fn = fx.one('graphite2::Slot::setGlyph')
+    fw = field_writes(fx)
+    for F in ('m_glyphid', 'm_realglyphid', 'm_advance', 'm_bidiCls'):
+        q = 'graphite2::Slot::' + F
+        blocks = set(f.block_of[e['i']] for f, e, kind in fw.get(q, []) if f is fn and kind in ('direct', 'init'))
+        for _, e in fn.elements():      # class-type members are assigned through operator=
+            if e['k'] == 'CXXOperatorCallExpr' and (e.get('fq') or '').endswith('::operator=') and e.get('args'):
+                t = fn.strip_all_casts(fn.N(e['args'][0]))
+                if t['k'] == 'MemberExpr' and t.get('d') == q:
+                    blocks.add(fn.block_of[e['i']])
+        inst = 'Slot::setGlyph stores %s on every path' % F
+        if not blocks:
+            run.violated('PRECEDENCE', inst, fn.where(), 'Slot::setGlyph no longer stores %s' % F)
+            continue
+        seen, st, path = set(), [(fn.entry, [fn.entry])], None
+        while st:
+            b, p = st.pop()
+            if b in seen or b in blocks:
+                continue
+            seen.add(b)
+            if b == fn.exit:
+                path = p
+                break
+            st.extend((s, p + [s]) for s in fn.succs(b) if s is not None)
+        if path:
+            run.violated('PRECEDENCE', inst, fn.where(), 'a path through Slot::setGlyph (blocks %s) returns without storing %s: a substitution (put_glyph / put_subs, Segment::appendSlot) leaves the slot '
+                         'with the %s of the glyph it showed before' % (path, F, F[2:]))
+        else:
+            run.held('PRECEDENCE', inst, fn.where(), 'stored in blocks %s, which cut every entry-exit path' % sorted(blocks))
